@@ -14,6 +14,7 @@ package main
 import (
 	"fmt"
 	"go/token"
+	"go/types"
 
 	"golang.org/x/tools/go/ssa"
 )
@@ -122,6 +123,25 @@ func (u *ubound) boundedDef(mf *memField, def *memDef, isX func(ssa.Value) bool,
 				})
 				if okCmp {
 					return true
+				}
+			}
+		}
+		// a copy of another struct variable as it is at this point (a helper's receiver or parameter resolved
+		// to the caller's variable: `target = target.capped(stop)`): the definitions of the member that reach
+		// THAT read, not every value the variable ever holds
+		{
+			src := stripConv(st.Val)
+			if u.reg != nil {
+				src = stripConv(u.reg.Resolve(src))
+			}
+			if ld, ok := src.(*ssa.UnOp); ok && ld.Op == token.MUL {
+				if sal, ok := ld.X.(*ssa.Alloc); ok && sal != mf.al {
+					if _, isStruct := sal.Type().Underlying().(*types.Pointer).Elem().Underlying().(*types.Struct); isStruct {
+						smf := u.memFieldOf(sal, mf.fld)
+						if sdef := smf.At(ld); sdef != nil && !sdef.entry && u.boundedDef(smf, sdef, isX, d+1, busy, map[*memDef]bool{}) {
+							return true
+						}
+					}
 				}
 			}
 		}
